@@ -9,33 +9,42 @@ PROPS["C13"] = {
     "level_text": (
         "Proof on a model of Connection's callback registry (callbacks: type -> id -> callback, callbacksAll: id -> callback, "
         "callbackID; client_connection.go:30-160) with the operations SubscribeEvent/SubscribeMessages, SubscribeToAll, a remover call "
-        "(the (kind,type,id) its closure captured) and dispatch, each atomic. For EVERY operation history Coq theorems state: a dispatched "
+        "(the (kind,type,id) its closure captured) and dispatch. For EVERY operation history Coq theorems state: a dispatched "
         "event invokes, as a multiset, exactly the subscriptions added with its exact type or to-all and not removed since, none twice "
         "(C13_routing); after a remover was called its subscription is never invoked again whatever follows, a remover that is not in force "
         "(repeated, or stale after its type was subscribed again) leaves the registry unchanged, a remover removes only its own subscription, "
         "ids are never reused (C13_remove*, C13_ids_never_reused); every subscription sees events in dispatch order, each at most once "
-        "(C13_order). Model = code is checked on every run by driving a REAL sse.Connection (Connect over a scripted RoundTripper whose body "
-        "releases one event at a time) through exhaustive short and random long histories, operations applied before Connect and from another "
-        "goroutine while connected, comparing per event who was invoked, per subscription what it saw in which order, and the registry sizes "
-        "(VerifCallbackCount) after every operation; a direct oracle written from the property text re-checks the observed behaviour."),
+        "(C13_order). For EVERY SCHEDULE of a lock-level transition system (dispatch = take the read lock, invoke the callbacks one by one, "
+        "release; a subscription or remover call of another goroutine takes effect only while no dispatch holds the lock) the registry and "
+        "the invocations performed are those of the atomic history the schedule amounts to, and once a remover has returned no later "
+        "invocation is of its subscription (C13_schedules_atomic, C13_schedules_remove_final). Model = code is checked on every run by "
+        "driving a REAL sse.Connection (Connect over a scripted RoundTripper whose body releases one event at a time) through exhaustive "
+        "short and random long histories, operations applied before Connect and from another goroutine while connected, comparing per "
+        "event who was invoked, per subscription what it saw in which order, and the registry sizes (VerifCallbackCount) after every "
+        "operation; a direct oracle written from the property text re-checks the observed behaviour; concurrent scenarios probe the lock "
+        "discipline the transition system assumes; the same scenarios are re-run in a race-enabled build."),
     "level_note": (
-        "Trusted: Coq kernel; the Gallina registry (theories/Callbacks.v) is hand-written after client_connection.go and tied to it by the "
-        "differential harness, not by a verified translation. Atomicity of each operation is an ASSUMPTION of the model, justified by reading "
-        "the code (every method body holds mu: write lock for add/remove, read lock for the whole of dispatch) and probed - not proved - by "
-        "concurrent scenarios in the harness (a remover issued from another goroutine in the middle of a dispatch must not return before the "
+        "Trusted: Coq kernel; the Gallina registry (theories/Callbacks.v) and its lock-level transition system (CallbacksLts.v) are "
+        "hand-written after client_connection.go and tied to it by the differential harness, not by a verified translation. The lock "
+        "discipline (every add/remove body under mu.Lock, the whole of dispatch including the user callbacks under mu.RLock, sync.RWMutex "
+        "excluding writers while a reader holds it) is an ASSUMPTION of the transition system, justified by reading the code and probed - not "
+        "proved - by concurrent scenarios (a remover issued from another goroutine in the middle of a dispatch must not return before the "
         "dispatch is over; subscribe/unsubscribe storms with permanent witnesses), whose verdict is computed by the Go harness itself. "
-        "Freedom from data races is NOT proved and this check does not run the race detector (bin/check builds the harness without -race); "
-        "it is the race detector's domain. A callback that (un)subscribes from inside its own dispatch self-deadlocks and is outside the "
-        "property ('from other goroutines'). The SSE parser and net/http are not part of this model (events are fed as well-formed wire text)."),
+        "Freedom from data races is NOT proved: it is observed, on those scenarios and on histories applied from another goroutine while "
+        "connected, by Go's race detector in a race-enabled child build of the harness (input distribution key race-detector:run; "
+        "race-detector:unavailable if the machine has no cgo toolchain, in which case nothing is claimed). A callback that (un)subscribes "
+        "from inside its own dispatch self-deadlocks and is outside the property ('from other goroutines'). The SSE parser and net/http are "
+        "not part of this model (events are fed as well-formed wire text)."),
     "rule": (
         "exhaustive histories of <= 6 (quick) / 7 (thorough) operations over {subscribe \"\", subscribe \"x\", subscribe-to-all, remover 0/1/2, "
         "event \"\", event \"x\"} each followed by one event of every type; seeded random histories (<= 40 / 120 operations, 4 types incl. a "
         "case variant, 3 labels, old removers called again and again); Connect started at a random point up to the first event; concurrent "
-        "scenarios (remover during dispatch x 4 kind pairs, storms). non-trivial = distinct histories (every one runs against a real Connection)"),
+        "scenarios (remover during dispatch x 4 kind pairs, storms); one race-detector run over 344 concurrent scenarios/histories. "
+        "non-trivial = distinct histories (every one runs against a real Connection)"),
     "assumptions": [
-        "each registry operation is atomic (mu held for every method body; dispatch holds the read lock while callbacks run)",
+        "the lock discipline of client_connection.go (mu.Lock around add/remove, mu.RLock around the whole of dispatch) and sync.RWMutex's exclusion, as modelled in CallbacksLts.v",
         "callbacks do not subscribe or unsubscribe from inside their own dispatch (self-deadlock, outside the property)",
-        "absence of data races is left to the race detector and is not established by this check",
+        "absence of data races is observed by the race detector on the harness's scenarios, not proved",
     ],
 }
 
